@@ -24,7 +24,7 @@ import (
 // real sockets and goroutines.
 
 type BOp struct {
-	Op     string `json:"op"` // open | close | reset | destclose | data
+	Op     string `json:"op"` // open | openzero | close | reset | destclose | data
 	Peer   int    `json:"peer,omitempty"`
 	ID     uint64 `json:"id,omitempty"`
 	Serial int    `json:"serial,omitempty"` // destclose: which accepted destination connection
@@ -431,6 +431,33 @@ func (b *BookRunner) Step(op BOp) BObs {
 			o.Res = 2
 			o.Note = "destination never accepted"
 		}
+	case "openzero":
+		// an open whose ephemeral public key is all zero: the key exchange fails
+		// after the destination checks; no connection may remain accounted for
+		b.req++
+		var zero [crypto.KeySize]byte
+		port := b.ln.Addr().(*net.TCPAddr).Port
+		var err error
+		if b.ex != nil {
+			err = b.ex.HandleStreamOpen(context.Background(), op.ID, b.req, PID(op.Peer), "127.0.0.1", uint16(port), zero)
+		} else {
+			err = b.fw.HandleStreamOpen(context.Background(), op.ID, b.req, PID(op.Peer), "k", zero)
+		}
+		if err != nil {
+			o.Res = 1 // refused up front (connection limit)
+			break
+		}
+		o.Res = 3
+		if !b.w.waitFor(func(evs []BWritten) bool {
+			for _, e := range evs {
+				if e.Kind == "err" && e.Peer == op.Peer && e.ID == op.ID {
+					return true
+				}
+			}
+			return false
+		}) {
+			o.Note += "no STREAM_OPEN_ERR for the zero-key open; "
+		}
 	case "close":
 		b.h.HandleStreamClose(PID(op.Peer), op.ID)
 	case "reset":
@@ -493,6 +520,8 @@ func CoqBOp(o BOp) string {
 	switch o.Op {
 	case "open":
 		return fmt.Sprintf("BOpen %s %s", vh.CoqN(uint64(o.Peer)), vh.CoqN(o.ID))
+	case "openzero":
+		return fmt.Sprintf("BOpenBadKey %s %s", vh.CoqN(uint64(o.Peer)), vh.CoqN(o.ID))
 	case "close":
 		return fmt.Sprintf("BClose %s %s", vh.CoqN(uint64(o.Peer)), vh.CoqN(o.ID))
 	case "reset":
